@@ -496,7 +496,7 @@ func keys(m map[string]bool) []string {
 
 func bounds(tier string) (depth int, deadline time.Duration) {
 	if tier == "thorough" {
-		return 5, 25 * time.Minute
+		return 5, 55 * time.Minute
 	}
 	return 3, 4 * time.Minute
 }
